@@ -595,69 +595,8 @@ func isSigned(t types.Type) bool {
 }
 
 func runLayout(r *core.Run) {
-	n := 0
+	n := layoutReaders(r)
 	w24 := 0
-	for _, tc := range []struct {
-		name  string
-		width int64
-	}{{"ReadUint16", 2}, {"ReadUint24", 3}, {"ReadUint32", 4}, {"ReadUint64", 8}} {
-		fn := r.Prog.SSAFunc("", "BinaryReader", tc.name)
-		if fn == nil {
-			r.BrokenAnchor("parse.BinaryReader." + tc.name)
-			continue
-		}
-		// ReadBytes(width)
-		var rb *ssa.Call
-		for _, b := range fn.Blocks {
-			for _, in := range b.Instrs {
-				if c, ok := in.(*ssa.Call); ok {
-					if f := c.Call.StaticCallee(); f != nil && f.Name() == "ReadBytes" {
-						rb = c
-					}
-				}
-			}
-		}
-		if rb == nil {
-			r.Unknown(tc.name+" shape", fn.Pos(), "no call to ReadBytes")
-			continue
-		}
-		arg := linOf(rb.Call.Args[1])
-		r.Check(arg.isConst() && arg.C == tc.width, tc.name+" reads width bytes", rb.Pos(), "", fmt.Sprintf("ReadBytes(%s) for a %d-byte integer", arg, tc.width))
-		// returns
-		for _, b := range fn.Blocks {
-			ret, ok := lastInstr(b).(*ssa.Return)
-			if !ok {
-				continue
-			}
-			res := ret.Results[0]
-			if c, ok := res.(*ssa.Const); ok && c.Int64() == 0 {
-				// short read: guarded by len(data) < width
-				fs := blockFacts(b)
-				goal := linConst(tc.width-1).add(linAtom("len(%"+rb.Name()+")"), -1)
-				r.Check(entails(fs, goal), tc.name+" short-read guard", ret.Pos(), "", fmt.Sprintf("zero is returned under %v, expected exactly len(data) < %d", factStrings(fs), tc.width))
-				continue
-			}
-			m := map[int64]int64{}
-			var dn string
-			if !orTerms(res, m, &dn) {
-				r.Unknown(tc.name+" composition", ret.Pos(), "result is not an OR of shifted bytes data[i]<<s with constant, distinct indices")
-				continue
-			}
-			n++
-			lay := layoutName(m, tc.width)
-			// which byte order does this return belong to?
-			order := orderAt(b)
-			if order == "" {
-				order = "BigEndian" // the code's default when ByteOrder is not LittleEndian
-			}
-			// the full-read guard must hold on this path: len(data) >= width
-			fs := blockFacts(b)
-			guard := entails(fs, linAtom("len(%"+rb.Name()+")").add(linConst(tc.width), -1))
-			r.Check(lay == order || lay == "both", fmt.Sprintf("%s %s layout", tc.name, order), ret.Pos(), fmt.Sprint(m),
-				fmt.Sprintf("bytes are combined as index->shift %v on the %s path, which is %s", m, order, lay))
-			r.Check(guard, fmt.Sprintf("%s %s bounds", tc.name, order), ret.Pos(), "", fmt.Sprintf("bytes 0..%d are indexed but the path only knows %v", tc.width-1, factStrings(fs)))
-		}
-	}
 	// signed reads are conversions of the unsigned reads of equal width
 	for _, w := range []string{"8", "16", "24", "32", "64"} {
 		fn := r.Prog.SSAFunc("", "BinaryReader", "ReadInt"+w)
@@ -707,40 +646,6 @@ func runLayout(r *core.Run) {
 			}
 		}
 		r.Check(ok, "WriteInt"+w+" converts to WriteUint"+w, wf.Pos(), "", "signed write is not a plain conversion to the unsigned write of the same width")
-	}
-	// single-byte reads: data[0] needs len(data) >= 1 (a reader back end may return an empty non-nil slice with its error)
-	for _, name := range []string{"ReadUint8", "ReadByte"} {
-		fn := r.Prog.SSAFunc("", "BinaryReader", name)
-		if fn == nil {
-			r.BrokenAnchor("parse.BinaryReader." + name)
-			continue
-		}
-		var rb *ssa.Call
-		for _, b := range fn.Blocks {
-			for _, in := range b.Instrs {
-				if c, ok := in.(*ssa.Call); ok {
-					if f := c.Call.StaticCallee(); f != nil && f.Name() == "ReadBytes" {
-						rb = c
-					}
-				}
-			}
-		}
-		if rb == nil {
-			r.Unknown(name+" shape", fn.Pos(), "no call to ReadBytes")
-			continue
-		}
-		for _, b := range fn.Blocks {
-			for _, in := range b.Instrs {
-				ia, ok := in.(*ssa.IndexAddr)
-				if !ok || ia.X != ssa.Value(rb) {
-					continue
-				}
-				n++
-				fs := blockFacts(b)
-				need := linAtom("len(%"+rb.Name()+")").add(linOf(ia.Index), -1).add(linConst(1), -1)
-				r.Check(entails(fs, need), name+" bounds", ia.Pos(), "", fmt.Sprintf("data[%s] is read under %v, which does not imply len(data) > %s: a back end that returns an empty (non-nil) slice together with io.EOF makes this index out of range", linOf(ia.Index), factStrings(fs), linOf(ia.Index)))
-			}
-		}
 	}
 	// writer: WriteUintN uses ByteOrder.AppendUintN of the same width; WriteUint24 explicit layout
 	for _, w := range []string{"16", "32", "64"} {
@@ -799,7 +704,7 @@ func runLayout(r *core.Run) {
 		r.BrokenAnchor("parse.BinaryWriter.WriteUint24")
 	}
 	r.Check(w24 == 2, "WriteUint24 has an explicit layout per byte order", token.NoPos, "", fmt.Sprintf("found %d explicit 3-byte layouts in WriteUint24 (need one for each byte order): the 24-bit write can no longer be matched against the reader's layout", w24))
-	r.Floor("byte-layout expressions", n, 12)
+	r.Floor("byte-layout expressions", n, 8)
 }
 
 // --------------------------------------------------------------- R-READPOS
